@@ -39,7 +39,8 @@ def eatUntil : Nat → List LK → List LK × End
 
 def disabled (ms : List Name) (m : Name) (neg : Bool) : Bool := ms.contains m == neg
 
-def eofMsg : String := "reached EOF without matching #endif"
+/-- the message parked for the end of the text; its wording is read from `preprocessor.rs` on every run (`Tables.eofMessage`) -/
+def eofMsg : String := String.ofList Tables.eofMessage
 def nameMsg (neg : Bool) : String :=
   if neg then "expected macro name after #ifndef" else "expected macro name after #ifdef"
 def defineMsg : String := "expected macro name after #define"
